@@ -140,6 +140,31 @@ def directed_scenarios():
         evs = [[["switch-kind", "m1", "foreign"], c01.event_actions(p0, p1), p1, {}],
                [["switch-kind", "m1", "memento"], c01.event_actions(p1, p2), p2, {}]]
         out.append(dict(note="memento -> foreign plain function -> identical memento", program=p0, events=evs))
+    # a plain helper re-defined several times with the same body and only another default value / keyword default /
+    # callable default (the code object of the new definition equals the old one)
+    q0 = dict(defs={"h1": f("plain", [], dflt=1, kwd=5, dcall=0), "h2": f("plain", [["h1", "bare"]]), "m1": f("memento", [["h2", "bare"]]),
+                    "m2": f("memento", [["m1", "bare"]])}, order=["h1", "h2", "m1", "m2"])
+    for d in q0["defs"].values():
+        d["nest"] = None
+    evs, prev = [], q0
+    for feat, val in (("dflt", 2), ("dflt", 3), ("kwd", 6), ("dcall", 1), ("dflt", 1)):
+        cur = copy.deepcopy(prev)
+        cur["defs"]["h1"][feat] = val
+        evs.append([["edit", feat, "h1"], c01.event_actions(prev, cur), cur, {}])
+        prev = cur
+    out.append(dict(note="helper re-defined with the same code and other default values", program=q0, events=evs))
+    # the same for a string constant inside a generator expression of the helper and of a memento function
+    g0 = dict(defs={"h1": f("plain", [], gx="x"), "m1": f("memento", [["h1", "bare"]], gx="x"), "m2": f("memento", [["m1", "bare"]])},
+              order=["h1", "m1", "m2"])
+    for d in g0["defs"].values():
+        d["nest"] = None
+    evs, prev = [], g0
+    for name, val in (("h1", "y"), ("m1", "y"), ("h1", "z"), ("h1", "x")):
+        cur = copy.deepcopy(prev)
+        cur["defs"][name]["gx"] = val
+        evs.append([["edit", "gx", name], c01.event_actions(prev, cur), cur, {}])
+        prev = cur
+    out.append(dict(note="string constant of a generator expression edited", program=g0, events=evs))
     return out
 
 
